@@ -190,13 +190,12 @@ class Peek(Terminal):
     def generate(self, gen: Builder, matched_var: str, pairs_var: str) -> None:
         """Emit Python code for a PEEK expression."""
         gen.writeln("# <Peek>")
-
         peeked = gen.new_temp("peek")
         gen.writeln(f"{peeked} = state.peek()")
-
-        gen.writeln(
-            f"if {peeked} is not None and state.input.startswith({peeked}, state.pos):"
-        )
+        gen.writeln(f"if {peeked} is None:")
+        with gen.block():
+            gen.writeln(f"{matched_var} = False")
+        gen.writeln(f"elif state.input.startswith({peeked}, state.pos):")
         with gen.block():
             gen.writeln(f"state.pos += len({peeked})")
             gen.writeln(f"{matched_var} = True")
@@ -204,7 +203,6 @@ class Peek(Terminal):
         with gen.block():
             gen.writeln(f"{matched_var} = False")
             gen.writeln(f"state.fail({peeked})")
-
         gen.writeln("# </Peek>")
 
     def is_pure(self, rules: dict[str, Rule], seen: set[str] | None = None) -> bool:
@@ -295,13 +293,12 @@ class Pop(Terminal):
     def generate(self, gen: Builder, matched_var: str, pairs_var: str) -> None:
         """Emit Python code for a PEEK expression."""
         gen.writeln("# <Pop>")
-
         peeked = gen.new_temp("peek")
         gen.writeln(f"{peeked} = state.peek()")
-
-        gen.writeln(
-            f"if {peeked} is not None and state.input.startswith({peeked}, state.pos):"
-        )
+        gen.writeln(f"if {peeked} is None:")
+        with gen.block():
+            gen.writeln(f"{matched_var} = False")
+        gen.writeln(f"elif state.input.startswith({peeked}, state.pos):")
         with gen.block():
             gen.writeln("state.user_stack.pop()")
             gen.writeln(f"state.pos += len({peeked})")
@@ -310,7 +307,6 @@ class Pop(Terminal):
         with gen.block():
             gen.writeln(f"{matched_var} = False")
             gen.writeln(f"state.fail({peeked})")
-
         gen.writeln("# </Pop>")
 
     def is_pure(self, rules: dict[str, Rule], seen: set[str] | None = None) -> bool:
